@@ -113,7 +113,8 @@ impl State {
                 }
                 seen.insert(t.0);
 
-                if t.1 <= 0.0 || t.1 > 1.0 {
+                // written so that NaN is rejected
+                if !(t.1 > 0.0 && t.1 <= 1.0) {
                     Err(Error::Machine(format!(
                         "found probability {}, has to be (0.0, 1.0]",
                         t.1
@@ -122,7 +123,7 @@ impl State {
                 sum += t.1;
             }
 
-            if sum <= 0.0 || sum > 1.0 {
+            if !(sum > 0.0 && sum <= 1.0) {
                 Err(Error::Machine(format!(
                     "found invalid total probability vector {} for {}, must be (0.0, 1.0]",
                     &sum, &event
